@@ -118,6 +118,11 @@ class Substitutor(SchemaVisitor[GenericSchema]):
         if len(value) > 0 and all(is_ellipsis(x) for x in value):
             raise SubstitutionError("Can't substitute all ...")
 
+        if any(is_ellipsis(x) for x in value[1:-1]):
+            # `...` is a placeholder for the head or the tail only; kept in the middle it
+            # would produce a list schema that can't be validated against
+            raise SubstitutionError("Can't substitute ... in the middle of a list")
+
         if (schema.props.elements is Nil) and (schema.props.type is Nil):
             elements = []
             for val in value:
